@@ -38,37 +38,39 @@ type wEntry struct {
 
 // connState is what the harness knows about one connection object.
 type connState struct {
-	held       []byte // slice returned by the last Next/Peek, valid until the next read-type call
-	heldOff    int
-	heldWhat   string
-	peeks      []heldSlice // results of earlier Peeks that no consuming call has voided yet
-	idx        int
-	cp         *ConnPlan
-	c          gnet.Conn
-	sock       *vsys.Sock // framework-side endpoint
-	fd         int
-	gen        int
-	task       string
-	opened     bool
-	closed     bool
-	closeErr   error
-	nTraffic   int
-	consumed   int // inbound stream offset consumed by the handler
-	offered    int // highest K-in seen at a callback entry
-	W          []wEntry
-	wBytes     int
-	failed     *wEntry // a write operation that failed: a proper prefix of it may be on the wire
-	localReq   bool    // a local close cause was requested before OnClose ran
-	peerCause  bool    // a peer/I-O close cause existed before OnClose ran
-	inCB       bool
-	faulted    bool
-	inOnClose  bool
-	tail       []wEntry // best-effort writes issued inside OnClose
-	udp        bool
-	wakesDue   int // Wake requests accepted and not yet seen as OnTraffic
-	extraTraf  int
-	afterClose int
-	addrStr    string
+	held         []byte // slice returned by the last Next/Peek, valid until the next read-type call
+	heldOff      int
+	heldWhat     string
+	peeks        []heldSlice // results of earlier Peeks that no consuming call has voided yet
+	idx          int
+	cp           *ConnPlan
+	c            gnet.Conn
+	sock         *vsys.Sock // framework-side endpoint
+	fd           int
+	gen          int
+	task         string
+	opened       bool
+	closed       bool
+	closeErr     error
+	nTraffic     int
+	consumed     int // inbound stream offset consumed by the handler
+	offered      int // highest K-in seen at a callback entry
+	W            []wEntry
+	wBytes       int
+	failed       *wEntry // a write operation that failed: a proper prefix of it may be on the wire
+	localReq     bool    // a local close cause was requested before OnClose ran
+	peerCause    bool    // a peer/I-O close cause existed before OnClose ran
+	inCB         bool
+	faulted      bool
+	inOnClose    bool
+	tail         []wEntry // best-effort writes issued inside OnClose
+	udp          bool
+	wakesDue     int // Wake requests accepted and not yet seen as OnTraffic
+	extraTraf    int
+	afterClose   int
+	addrStr      string
+	udpOpenReply []byte // what OnOpen returned for a connected UDP socket, until checked
+	udpOpenAt    int
 }
 
 type peerState struct {
@@ -154,6 +156,7 @@ type World struct {
 	regLost          []string
 	stopCallsPending int       // Engine.Stop calls of application tasks that have not returned
 	runDoneAt        time.Time // simulated time at which Run returned
+	tickIdx          int
 	stopAskedStep    int
 	floodUsers       int // application tasks that issue asynchronous writes until Run returns
 	spinSeen         bool
@@ -271,7 +274,7 @@ func (w *World) nonTrivial() bool {
 	case "C19":
 		return w.probes["control-calls"] > 0
 	case "C08":
-		return w.probes["udp-datagrams-handled"] > 1
+		return w.probes["udp-datagrams-handled"] > 1 || w.probes["udp-client-datagrams"] > 0
 	case "C14":
 		return w.probes["registry-snapshots"] > 2 && w.closedN > 0
 	case "C15":
@@ -481,6 +484,14 @@ func (w *World) events() []vsched.Event {
 	}
 	if !w.stopRequested && !w.stopEventUsed && w.booted && w.p.Stop.AtStep > 0 && w.s.Step() >= w.p.Stop.AtStep && (w.p.Stop.Source == "engine.Stop" || w.p.Stop.Source == "gnet.Stop" || w.p.Stop.Source == "client.Stop") {
 		evs = append(evs, vsched.Event{Name: "stop", Run: func() { w.stopEventUsed = true; w.requestStop() }})
+	}
+	if w.p.Cfg.Ticker && w.booted && !w.runDone && w.ph == phWorkload && w.tickIdx < len(w.p.Cfg.TickAt) && w.s.Step() >= w.p.Cfg.TickAt[w.tickIdx] {
+		// simulated time passes: the ticker's timer fires and OnTick runs again
+		evs = append(evs, vsched.Event{Name: "clock", Run: func() {
+			w.tickIdx++
+			w.probes["clock-advanced-during-workload"]++
+			w.s.AdvanceClock(time.Duration(max(1, w.p.Cfg.TickMs))*time.Millisecond + time.Millisecond)
+		}})
 	}
 	evs = append(evs, w.udpEvents()...)
 	for _, fd := range w.k.Canaries() {
